@@ -14,7 +14,15 @@ def main(plan_path, out_path):
     with open(plan_path) as f:
         plan = json.load(f)
     sys.path.insert(0, plan["dir"])
-    m = importlib.import_module(plan["module"])
+    try:
+        m = importlib.import_module(plan["module"])
+    except Exception as e:          # the generated module cannot be imported: every invocation fails
+        with open(out_path, "a") as outf:
+            for case in plan["cases"]:
+                outf.write(json.dumps({"id": case["id"], "obs": {"cb": {
+                    "called": 0, "seen": [], "out": [], "escaped": "LoadError:" + type(e).__name__, "reports": 0}}}) + "\n")
+        open(out_path + ".ok", "w").close()
+        return
     ffi, lib = m.ffi, m.lib
     sigs = [(s[0], tuple(s[1])) for s in plan["sigs"]]
     cells = [lib.cb_cells + j for j in range(CB.NCELLS)]
@@ -41,6 +49,8 @@ def main(plan_path, out_path):
         if rt == "void":
             return []
         ct = ffi.typeof(G.cname(rt))
+        if rt == "ld":
+            return G.img8(float(ffi.cast("long double *", out)[0]))
         if rt.startswith("p_"):
             a = int(ffi.cast("uintptr_t", ffi.cast("void **", out)[0]))
             if a == 0:
@@ -57,8 +67,17 @@ def main(plan_path, out_path):
         return list(ffi.buffer(out, ffi.sizeof(ct))[:])
 
     prog = open(out_path + ".progress", "w")
-    res = {}
+    outf = open(out_path, "a")
+    done = set(plan.get("done", []))
+    skip = set((c, p) for c, p in plan.get("skip", []))
     for case in plan["cases"]:
+        if case["id"] in done:
+            continue
+        if (case["id"], case["mode"]) in skip:      # this invocation killed an earlier run of the plan
+            outf.write(json.dumps({"id": case["id"], "obs": {"cb": {"called": 0, "seen": [], "out": [],
+                                                                      "escaped": "Crash", "reports": 0}}}) + "\n")
+            outf.flush()
+            continue
         prog.write("%s %s\n" % (case["id"], case["mode"]))
         prog.flush()
         k = case["k"]
@@ -97,11 +116,11 @@ def main(plan_path, out_path):
                 getattr(lib, "call_ep_%d" % k)(case["row"], out)
         except BaseException as e:
             escaped = type(e).__name__
-        res[str(case["id"])] = {"cb": {"called": called[0], "seen": seen, "out": image(rt, out), "escaped": escaped,
-                                       "reports": len(reports)}}
-    with open(out_path + ".tmp", "w") as f:
-        json.dump(res, f)
-    os.rename(out_path + ".tmp", out_path)
+        outf.write(json.dumps({"id": case["id"], "obs": {"cb": {"called": called[0], "seen": seen, "out": image(rt, out),
+                                                                "escaped": escaped, "reports": len(reports)}}}) + "\n")
+        outf.flush()
+    outf.close()
+    open(out_path + ".ok", "w").close()
 
 
 if __name__ == "__main__":
